@@ -35,6 +35,9 @@ package nsqd
 //@   ensures[rdy0-nothing] c.ReadyCount <= 0 ==> !result
 //@   ensures[full-nothing] c.InFlightCount >= c.ReadyCount ==> !result
 //@   modifies
+//   the readiness verdict of this check, for the deliver-guard of the pump (ghosts in zz_contracts_lpump_verif.go)
+//@   onreturn lReadyFor := c
+//@   onreturn lReady := result
 
 // Wakes the pump; touches no counter.
 //@ func (c *clientV2) tryUpdateReadyState()
@@ -74,6 +77,7 @@ package nsqd
 //@   ensures[message-count-nowrap] old(c.MessageCount) < 18446744073709551615 ==> c.MessageCount == old(c.MessageCount) + 1
 //@   ensures[in-flight-nowrap] old(c.InFlightCount) < 9223372036854775807 ==> c.InFlightCount == old(c.InFlightCount) + 1
 //@   modifies c.MessageCount, c.InFlightCount
+//@   onreturn lSendingFor := c
 
 //@ func (c *clientV2) TimedOutMessage()
 //@   props C03 C13 C02
@@ -159,4 +163,6 @@ package nsqd
 // call with a fatal error and the connection closes - so "timeout unchanged too" would demand more than
 // the property states; an earlier version of this clause did and raised a false alarm.)
 //@   ensures[refused-size-unchanged] !obsOK(c, desiredSize) ==> c.OutputBufferSize == old(c.OutputBufferSize) && c.Writer == old(c.Writer)
+//   the connection always keeps a writer (bufio.NewWriterSize never returns nil, see .trusted/lpump.spec)
+//@   ensures[writer-kept] old(c.Writer) != nil ==> c.Writer != nil
 //@   modifies c.OutputBufferTimeout, c.OutputBufferSize, c.Writer
